@@ -173,6 +173,7 @@ def _load_check(prop):
 def _shard(args):
     prop, tier, seed, shard, n_examples, want_extra = args
     t0 = time.time()
+    os.environ["VERIF_SHARD"] = str(shard)
     try:
         setup_repo()
         mod = _load_check(prop)
